@@ -67,12 +67,15 @@ class Behaviour(object):
     """
     __slots__ = ('ignore', 'react_delay', 'react_exit', 'lifetime',
                  'self_status', 'children', 'latency', 'orphan_exit',
-                 'writer', 'label', 'reaps_children')
+                 'writer', 'label', 'reaps_children', 'late_children')
 
     def __init__(self, ignore=(), react_delay=0.0, react_exit=None,
                  lifetime=None, self_status=0, children=(), latency=0.0,
                  orphan_exit=False, writer=None, label='obedient',
-                 reaps_children=True):
+                 reaps_children=True, late_children=()):
+        # late_children: forked by the signal handler when the first
+        # catchable signal arrives (a helper started during the shutdown)
+        self.late_children = list(late_children)
         self.ignore = ignore
         self.react_delay = react_delay
         self.react_exit = react_exit
@@ -138,7 +141,8 @@ class Proc(object):
                  'children', 'marker', 'spawn_time', 'spawn_seq', 'spawn_call',
                  'stdout_w', 'stderr_w', 'popen', 'pending', 'death_time',
                  'death_cause', 'death_seq', 'reaped_by', 'dying', 'fdtable',
-                 'orig_parent', 'term_first', 'written', 'wid')
+                 'orig_parent', 'term_first', 'written', 'wid',
+                 'late_forked', 'forked_by', 'spawn_step')
 
     def __init__(self, pid, ppid, argv, kw, beh):
         self.pid = pid
@@ -167,6 +171,9 @@ class Proc(object):
         self.term_first = None
         self.written = None
         self.wid = None
+        self.late_forked = False
+        self.forked_by = None     # signal log entry whose handler forked it
+        self.spawn_step = 0
 
     @property
     def alive(self):
@@ -212,6 +219,7 @@ class SimKernel(object):
         p.spawn_time = self.sim.now
         p.spawn_seq = self.sim.rec('spawn', p.pid, ppid)
         p.spawn_call = self.sim.ncalls
+        p.spawn_step = self.sim.steps
         self.procs[p.pid] = p
         if ppid in self.procs:
             self.procs[ppid].children.append(p.pid)
@@ -312,6 +320,18 @@ class SimKernel(object):
             return 'ignored'
         if sig in _IGNORED:
             return 'noop'
+        if p.beh.late_children and not getattr(p, 'late_forked', False):
+            # the handler of the first catchable signal forks helpers
+            p.late_forked = True
+            for cb in p.beh.late_children:
+                c = self.spawn(p.pid, ['late-child-of-%d' % p.pid], {}, cb)
+                c.marker = p.marker
+                c.forked_by = getattr(self, '_cur_entry', None) or 'external'
+                if p.stdout_w is not None:
+                    c.stdout_w = p.stdout_w.acquire()
+                if p.stderr_w is not None:
+                    c.stderr_w = p.stderr_w.acquire()
+                self._arm_lifetime(c)
         if p.beh.ignores(sig):
             return 'ignored'
         if p.beh.react_exit is None:
@@ -369,7 +389,11 @@ class SimKernel(object):
         else:
             if p.term_first is None:
                 p.term_first = (sim.now, sig)
-            entry['effect'] = self._deliver(p, sig, via)
+            self._cur_entry = entry
+            try:
+                entry['effect'] = self._deliver(p, sig, via)
+            finally:
+                self._cur_entry = None
         entry['seq'] = sim.rec('signal', pid, sig, entry['effect'])
         self.signals.append(entry)
         if self.on_signal is not None:
